@@ -25,7 +25,7 @@ CWORDS = ["double", "int", "const", "void", "char", "return", "if", "else", "for
           "default", "do", "goto", "sizeof", "typedef", "volatile", "register", "extern", "auto", "restrict", "inline", "main", "exp", "log", "pow", "sqrt", "fabs", "floor", "fmod", "sin", "cos", "tan", "y0", "y1", "j0", "j1", "gamma",
           "M_PI", "M_E", "NULL", "true", "false", "bool", "HUGE_VAL", "INFINITY", "NAN", "errno", "signgam", "index", "remainder", "round", "trunc", "erf", "div", "abs", "exit", "free", "rand", "time", "clock", "printf"]
 SYMPY = ["E", "I", "S", "N", "O", "Q", "pi", "oo", "zoo", "nan", "beta", "gamma", "zeta", "lambda", "Symbol", "symbols", "sin", "re", "im", "sign", "Max", "Min", "Piecewise", "Eq", "Ne", "true", "false", "Abs"]
-HELPERS = ["dx_dt_linearized", "x_linearized", "dxx_dt", "d_dt", "dt_dt", "dx_dt_", "ddt", "d1_dt"]
+HELPERS = ["dx_dt_linearized", "x_linearized", "dxx_dt", "d_dt", "dt_dt", "dx_dt_", "ddt", "d1_dt", "dy_dt", "dx_dt", "dy_dt_linearized", "b", "y", "q"]
 GRAMMAR = sorted(G.KEYWORDS)
 WEIRD = ["_", "__", "_x", "__x__", "x_", "X", "a1", "A_1", "_1", "aB_c9", "x" * 40, "l", "O0", "e1", "E2", "e", "d", "dd"]
 STATIC = INTERNAL + PYWORDS + CWORDS + SYMPY + HELPERS + GRAMMAR + WEIRD
@@ -52,13 +52,38 @@ b = a*q - x**2
 dx_dt = b - p*x
 dy_dt = a + q*y + t
 """,
+    # two independent components: the renamed entities (x, p, a) are not upstream of dy_dt, so using
+    # the name of y's derivative for them creates no cycle
+    """states("First", x={x0})
+states("Second", y=2.5)
+parameters("First", p=0.75)
+parameters("Second", q=-1.5)
+expressions("First")
+a = p*x + {abs}(x)
+dx_dt = -a*p
+expressions("Second")
+b = q*y
+dy_dt = -b + t
+""",
+    # the renamed entities (x, p, a) live in another component than y and its derivative
+    """states("First", x={x0})
+states("Second", y=2.5)
+parameters("First", p=0.75)
+parameters("Second", q=-1.5)
+expressions("First")
+a = p*x + {abs}(y)
+dx_dt = b - p*x
+expressions("Second")
+b = a*q - x**2
+dy_dt = a + q*y + t
+""",
 ]
 
 
 def base_model(draw):
     from vlib import odeparse
 
-    txt = BASES[0].format(x0=draw(st.sampled_from(["1.25", "-0.5"])), abs=draw(st.sampled_from(["abs", "sin"])))
+    txt = draw(st.sampled_from(BASES)).format(x0=draw(st.sampled_from(["1.25", "-0.5"])), abs=draw(st.sampled_from(["abs", "sin"])))
     return odeparse.parse_model(txt)
 
 
@@ -85,9 +110,12 @@ def strategy(tier):
     @st.composite
     def _s(draw):
         model = base_model(draw)
-        src = draw(st.sampled_from(["static", "static", "harvested", "random"]))
+        src = draw(st.sampled_from(["static", "static", "harvested", "random", "derived", "derived"]))
         if src == "static":
             ident = draw(st.sampled_from(STATIC))
+        elif src == "derived":
+            # names derived from the model's own names (derivative and helper names of OTHER entities)
+            ident = draw(st.sampled_from(["dy_dt", "dx_dt", "dy_dt_linearized", "dx_dt_linearized", "db_dt", "da_dt", "dq_dt", "y_linearized"]))
         elif src == "harvested":
             ident = draw(st.sampled_from(harvested_pool()))
         else:
@@ -173,8 +201,11 @@ def check_case(case):
     if not VAR_RE.match(ident):
         raise Inconclusive("not-an-identifier")
     base = case["model"]
-    if ident in X.model_names(base) or (role == "state" and X.deriv_name(ident) in X.model_names(base)):
-        return {"nontrivial": False, "labels": ["name-already-in-model"]}
+    if ident == {"state": "x", "parameter": "p", "intermediate": "a"}[role]:
+        return {"nontrivial": False, "labels": ["identity-renaming"]}
+    # an identifier that is already the name of ANOTHER quantity of the model (y, dy_dt ...) makes
+    # the model ill-formed: gotranx must refuse it (outcome 'rejected'); silently generating code
+    # is a capture like any other
     mA, mapA = renamed(base, role, ident)
     mB, mapB = renamed(base, role, SAFE)
     stB, modB, textB = build(mB, backend)
@@ -183,7 +214,7 @@ def check_case(case):
     stA, modA, textA = build(mA, backend)
     ctx = {"identifier": ident, "role": role, "backend": backend, "text": textA}
     labs = [f"source:{case['source']}", f"role:{role}", f"backend:{backend}"]
-    nontrivial = case["source"] in ("static", "harvested")
+    nontrivial = case["source"] in ("static", "harvested", "derived")
     if stA == "rejected":
         return {"nontrivial": nontrivial, "labels": labs + ["outcome:rejected-by-gotranx"]}
     if stA == "broken":
@@ -219,10 +250,10 @@ CLAIM = {
 
 
 def _one(triple):
-    ident, role, backend = triple
+    ident, role, backend = triple[:3]
     from vlib import odeparse
 
-    model = odeparse.parse_model(BASES[0].format(x0="1.25", abs="abs"))
+    model = odeparse.parse_model(BASES[triple[3] if len(triple) > 3 else 0].format(x0="1.25", abs="abs"))
     case = {"model": model, "identifier": ident, "source": "static", "role": role, "backend": backend}
     try:
         info = check_case(case)
@@ -239,7 +270,7 @@ def enumerate_all(backends=("numpy", "C"), idents=None, procs=16):
     import multiprocessing as mp
 
     idents = sorted(set(idents if idents is not None else STATIC + harvested_pool()))
-    triples = [(i, r, b) for i in idents for r in ("state", "parameter", "intermediate") for b in backends]
+    triples = [(i, r, b, k) for i in idents for r in ("state", "parameter", "intermediate") for b in backends for k in range(len(BASES))]
     with mp.get_context("fork").Pool(procs) as pool:
         return pool.map(_one, triples, chunksize=8)
 
@@ -254,7 +285,9 @@ def extra(tier, seed):
 
     model = odeparse.parse_model(BASES[0].format(x0="1.25", abs="abs"))
     res = enumerate_all(("numpy", "C")) + enumerate_all(("jax",), idents=INTERNAL + PYWORDS, procs=8)
-    for (ident, role, backend), sig, detail, labs in res:
+    for triple, sig, detail, labs in res:
+        ident, role, backend = triple[:3]
+        model = odeparse.parse_model(BASES[triple[3] if len(triple) > 3 else 0].format(x0="1.25", abs="abs"))
         out["evaluations"] += 1
         case = {"model": model, "identifier": ident, "source": "static", "role": role, "backend": backend}
         if sig is not None:
